@@ -130,6 +130,13 @@ where
             }));
         }
 
+        if !last && next_offset % FlexVec::<T, L>::ALIGN != 0 {
+            return Some(Err(Error {
+                kind: ErrorKind::BadAlign,
+                pos: self.pos,
+            }));
+        }
+
         let available = data.bytes().len();
         if payload_offset > available || (!last && next_offset > available) {
             return Some(Err(Error {
